@@ -198,7 +198,8 @@ def pAtomS : Nat → List STok → PR SExpr
       else none
     | .word w :: rest =>
       let u := upper w
-      if u == "TRUE" || u == "FALSE" || u == "NULL" || u == "CURRENT_TIMESTAMP" then some (.const u, rest)
+      let callFollows := match rest with | t :: _ => isSym t "(" | [] => false
+      if (u == "TRUE" || u == "FALSE" || u == "NULL" || u == "CURRENT_TIMESTAMP") && !callFollows then some (.const u, rest)
       else if u == "CASE" then
         match rest with
         | wh :: r1 =>
